@@ -324,9 +324,7 @@ def eval_detector_fault(cfg):
     for f in files:
         if obs.final.get(f) not in (files[f], base.final.get(f)):
             out.append((sig("file-differs-from-input-and-from-fault-free-outcome"), f"{f}: {obs.final.get(f)!r:.300}"))
-    extra_failed = sorted(set(_failed(obs.report, cm)) - set(_failed(base.report, cm)))
-    if extra_failed:
-        out.append((sig("processable-files-listed-as-failed"), f"{extra_failed} are listed as failed although {cm} processes them without a problem in the fault-free run"))
+    # (listing the files as failed when the detector died is a design choice the property does not rule out: not judged)
     for k, d in codetf.validate(obs.report, before=obs.before, after=obs.final, logs=obs.logs[-1]):
         out.append((sig(f"report:{k}"), d))
     return out
